@@ -172,6 +172,77 @@ def hist_case(ctx):
     return run.sys, case, names, [k for k, _ in (st["phases"] or [])], tabled
 
 
+def interleave_case(ctx, hist=None, marks=None, tail=None):
+    """`interleaving_invisible` on the implementation: the same accepted calls are replayed on two fresh systems WITHOUT any
+    observation in between - on A with analyses (solve / params / phases / rail_rep / save / tree) interleaved at some points,
+    on B with none - followed by a tail that deletes a leaf and re-adds it below another parent (rustworkx re-uses the freed
+    node index).  Every report of A must equal the report of B: an analysis leaves nothing behind that a later one picks up."""
+    from sysloss.system import System
+    rng = ctx.rng
+    if hist is None:
+        run = c16.gen_history(ctx, "interleave")
+        if run.init_outcome != "ok" or any(s["wf"] for s in run.steps):
+            return None
+        ops = [s["op"] for s in run.steps if s["outcome"] == "ok"]
+        hist = {"init": run.init, "ops": ops}
+        fs = c16.final_structure(run)
+        if fs is not None:
+            kids = {}
+            for n_, c_ in fs["comps"].items():
+                for q in c_["parents"]:
+                    kids.setdefault(q, []).append(n_)
+            leaves = sorted(n_ for n_, c_ in fs["comps"].items() if not kids.get(n_) and len(c_["parents"]) == 1
+                            and c_["desc"]["kind"] not in ("source", "pmux"))
+            rng.shuffle(leaves)
+            for x in leaves:
+                others = sorted(q for q, c_ in fs["comps"].items() if q != x and q != fs["comps"][x]["parents"][0]
+                                and c_["desc"]["kind"] not in H.LOADS)
+                if others:
+                    free = [n_ for n_ in H.NAMES if n_ not in fs["comps"] and n_ not in fs["rails"].values()]
+                    newname = x if (rng.random() < 0.5 or not free) else rng.choice(free)
+                    tail = [{"op": "del_comp", "name": x, "del_childs": True},
+                            {"op": "add_comp", "parent": rng.choice(others), "comp": dict(fs["comps"][x]["desc"], name=newname),
+                             "group": "", "rail": ""}]
+                    break
+        marks = sorted(set([k for k in range(len(ops)) if rng.random() < 0.35] + [len(ops) - 1]))
+    ops = hist["ops"] + (tail or [])
+    kinds = ["solve", "params", "phases", "rail_rep", "save", "tree", "limits"]
+
+    def build(with_analyses):
+        s, e, _ = H.quiet(lambda: System(hist["init"]["name"], H.mk(hist["init"]["comp"]), group=hist["init"]["group"], rail=hist["init"]["rail"]))
+        if e is not None:
+            return None
+        for k, op in enumerate(ops):
+            H.call(s, op)
+            if with_analyses and k in marks:
+                what = kinds[(k * 7 + len(ops)) % len(kinds)]
+                if what == "save":
+                    H.quiet(s.save, os.path.join(_TMP, "i.json"))
+                elif what == "params":
+                    H.quiet(s.params, limits=True)
+                else:
+                    H.quiet(getattr(s, what))
+        return s
+    a, b = build(True), build(False)
+    if a is None or b is None:
+        return None
+    ra, rb = c16.reports(a), c16.reports(b)
+    ctx.stats["interleave:cases"] += 1
+    ctx.stats["interleave:with_tail"] += 1 if tail else 0
+    case = {"history": hist, "marks": marks, "tail": tail, "short": H.short(hist)[-8:]}
+    bad = False
+    for name in ra:
+        d = c16.diff_report(name, ra[name], rb[name])
+        if d is not None:
+            ctx.oracle(case, "interleaving_invisible", name, {},
+                       dict(d, a_is="calls with analyses interleaved after calls %s" % marks, b_is="the same calls, no analysis in between"))
+            bad = True
+            break
+    ctx.case(key=["interleave", c14._hist_key(hist), marks], nontrivial=len(ops) >= 4 and len(marks) >= 1,
+             sample={"calls": H.short(hist)[-6:], "analyses_after": marks, "tail": [t["op"] for t in (tail or [])]})
+    return bad
+
+
 def battery_part(ctx, n):
     """clause 3 on the implementation: the battery's params() row before vs after batt_life, for every failure position"""
     done = 0
@@ -202,6 +273,8 @@ def run(ctx):
             ctx.case(nontrivial=False)
             continue
         analyse_session(ctx, *got, stream="gen" if k % 3 else "edited")
+    for _ in range(ctx.n(40, 1000)):
+        interleave_case(ctx)
     battery_part(ctx, ctx.n(5, 60))
 
 
@@ -214,6 +287,9 @@ def search(ctx):
 
 def replay(ctx, data):
     case = data["case"]
+    if "marks" in case:
+        interleave_case(ctx, hist=case["history"], marks=case["marks"], tail=case.get("tail"))
+        return
     if "history" in case:
         r = c16.replay16(case["history"])
         st = r.cur()
